@@ -1,5 +1,5 @@
 """C20 the language server survives any session and answers from the latest text."""
-from .. import panicrules, lsp
+from .. import shape, panicrules, lsp
 
 LEVEL = "other"
 EXHAUSTIVE = True
@@ -17,6 +17,7 @@ def run(ctx, rep):
     panicrules.evaluate(ctx, rep, ["C20"])
     rep.floor("PANIC", 40, "audited panic sites")
     panicrules.span_rule(ctx, rep)
+    shape.shape_rule(ctx, rep, panicrules.zones_of)
     rep.assume("documents are identified by file: URIs with a UTF-8 path; protocol messages are well-formed JSON that deserialises for its method")
     rep.assume("the analysis pipeline (lexer, parser, semantic pass, formatter) does not panic: decided under C12 and C17, which share the zone "
                "computation; the main-thread unwraps of send/join and assert!(!is_finished()) are safe iff the analysis thread has no unaudited panic site")
